@@ -46,6 +46,56 @@ def build(spec):
     return det
 
 
+_SPECIAL = {"nan": float("nan"), "inf": float("inf"), "-inf": float("-inf"), "-0.0": -0.0}
+
+
+def _values(v):
+    """numpy array of one variable of a tree spec: {"dtype", "shape", "vals"} (vals are exact: small integers, dyadic
+    floats, the strings nan/inf/-inf/-0.0, [re, im] pairs, strings, ns since the epoch)."""
+    dt, vals = v.get("dtype", "float64"), v["vals"]
+    if dt.startswith("complex"):
+        arr = np.array([complex(_SPECIAL.get(a, a), _SPECIAL.get(b, b)) for a, b in vals], dtype=dt)
+    elif dt.startswith("datetime64") or dt.startswith("timedelta64"):
+        arr = np.array(vals, dtype="int64").astype(dt.split("[")[0] + "[ns]").astype(dt)
+    elif dt.startswith("float"):
+        arr = np.array([_SPECIAL.get(x, x) for x in vals], dtype=dt)
+    elif dt == "bool":
+        arr = np.array([bool(x) for x in vals], dtype=bool)
+    else:
+        arr = np.array(vals, dtype=dt)
+    return arr.reshape(tuple(v["shape"]))
+
+
+def _dataset(g):
+    import xarray as xr
+
+    mk = lambda v: (tuple(v["dims"]), _values(v), dict(v.get("attrs") or {}))  # noqa: E731
+    return xr.Dataset({v["name"]: mk(v) for v in g.get("vars", [])},
+                      coords={v["name"]: mk(v) for v in g.get("coords", [])}, attrs=dict(g.get("attrs") or {}))
+
+
+class InvalidSpec(Exception):
+    """the generated tree spec is not a tree xarray accepts (nothing of the codec under test was involved)."""
+
+
+def fill_tree(tree, spec):
+    try:
+        _fill_tree(tree, spec)
+    except Exception as ex:  # noqa: BLE001
+        raise InvalidSpec(f"{type(ex).__name__}: {str(ex)[:200]}") from ex
+
+
+def _fill_tree(tree, spec):
+    """Graft the groups of a tree spec into an existing xr.DataTree through its public mapping interface (parents
+    before children, so that no assignment replaces an already built sub-tree)."""
+    import xarray as xr
+
+    if spec.get("root"):
+        tree.dataset = _dataset(spec["root"])
+    for g in sorted(spec.get("groups", []), key=lambda g: g["path"].count("/")):
+        tree[g["path"]] = xr.DataTree(_dataset(g))
+
+
 def fill(det, init, rows, cols):
     import xarray as xr
 
@@ -53,14 +103,17 @@ def fill(det, init, rows, cols):
     ph = init.get("photon")
     if ph is not None:
         if ph["mode"] == "2d":
-            det.photon.array = _f(ph["vals"], sh)
+            det.photon.array = _f(ph["vals"], sh, ph.get("dtype", "float64"))
         else:
             wl = [float(x) for x in ph["wl"]]
-            det.photon.array_3d = xr.DataArray(_f(ph["vals"], (len(wl),) + sh), dims=["wavelength", "y", "x"],
-                                               coords={"wavelength": wl})
+            wlc = ("wavelength", wl, dict(ph["wl_attrs"])) if ph.get("wl_attrs") else wl
+            det.photon.array_3d = xr.DataArray(_f(ph["vals"], (len(wl),) + sh, ph.get("dtype", "float64")),
+                                               dims=["wavelength", "y", "x"], coords={"wavelength": wlc},
+                                               attrs=dict(ph.get("attrs") or {}), name=ph.get("name"))
     for b in ("pixel", "signal", "phase"):
         if init.get(b) is not None:
-            getattr(det, b).array = _f(init[b], sh)
+            v = init[b]
+            getattr(det, b).array = _f(v["vals"], sh, v["dtype"]) if isinstance(v, dict) else _f(v, sh)
     if init.get("image") is not None:
         det.image.array = _f(init["image"]["vals"], sh, init["image"].get("dtype", "uint16"))
     if init.get("charge_array") is not None:
@@ -77,7 +130,7 @@ def fill(det, init, rows, cols):
             det.charge.remove_from_frame([int(det.charge.frame.index[fr["remove"] % n])])
     sc = init.get("scene")
     if sc is not None:
-        for s in sc["sources"]:
+        for s in sc.get("sources", []):
             nref, wl = s["nref"], [float(x) for x in s["wl"]]
             ds = xr.Dataset(
                 {"x": ("ref", _f(s["x"], (nref,))), "y": ("ref", _f(s["y"], (nref,))),
@@ -86,16 +139,41 @@ def fill(det, init, rows, cols):
                 coords={"ref": list(range(nref)), "wavelength": wl},
                 attrs={"right_ascension": "56.75 deg", "declination": "24.5 deg", "fov_radius": "0.5 deg"})
             det.scene.add_source(ds)
+        if sc.get("tree"):
+            fill_tree(det.scene.data, sc["tree"])
     da = init.get("data")
     if da is not None:
-        for node in da["nodes"]:
+        if da.get("tree"):
+            fill_tree(det.data, da["tree"])
+        for node in da.get("nodes", []):
             n = len(node["vals"])
             det.data[node["path"]] = xr.DataTree(xr.Dataset({node.get("var", "v"): ("k", _f(node["vals"], (n,)))},
                                                             coords={"k": list(range(n))}))
 
 
-def _exc(ex):
-    return {"raise": type(ex).__name__, "msg": str(ex)[:200]}
+def _trees(P, det, back):
+    """nested view of the two trees of a detector (walked through `.children`), the keys the implementation's to_dict
+    wrote for them, and the nested view of what came back (None: nothing came back)."""
+    out = {}
+    try:
+        dd = det.to_dict()["data"]
+    except Exception:  # noqa: BLE001
+        return out
+    for name, tree, btree in (("data", det._data, getattr(back, "_data", None)),
+                              ("scene", det._scene.data if det._scene is not None else None,
+                               back._scene.data if back is not None and back._scene is not None else None)):
+        if tree is None or dd.get(name) is None:
+            continue
+        out[name] = {"orig": P.c_nested(tree), "keys": [P._asc(k) for k in dd[name]],
+                     "back": None if btree is None else P.c_nested(btree)}
+    return out
+
+
+def _exc(ex, stage=None):
+    out = {"raise": type(ex).__name__, "msg": str(ex)[:200]}
+    if stage:
+        out["stage"] = stage
+    return out
 
 
 _N = [0]
@@ -117,34 +195,47 @@ def handle(p):
             return {"h5py": True}
         except Exception:  # noqa: BLE001
             return {"h5py": False}
-    det = build(p["spec"])
+    try:
+        det = build(p["spec"])
+    except InvalidSpec as ex:
+        return {"invalid_spec": str(ex)}
     out = {}
     if route == "dict":
         # to_dict -> [the in-memory conversion of processed-data Datasets that every backend performs before writing]
         # -> from_dict.  No file library involved: isolates pyxel's own key handling.
+        stage = "save"
         try:
             dct = det.to_dict()
             out["orig"] = P.canon_detector(det)
             dd = dct["data"].get("data")
             if dd is not None:
                 dct["data"]["data"] = {k: (v.to_dict() if hasattr(v, "data_vars") else v) for k, v in dd.items()}
+            stage = "load"
             back = Detector.from_dict(dct)
             out["back"] = P.canon_detector(back)
+            out["trees"] = _trees(P, det, back)
         except Exception as ex:  # noqa: BLE001
             out.setdefault("orig", P.canon_detector(det))
-            out["back"] = _exc(ex)
+            out["back"] = _exc(ex, stage)
+            if stage == "load":
+                out["trees"] = _trees(P, det, None)
         return out
     if route == "asdf":
         fn = _fname()
+        stage = "save"
         try:
             getattr(det, p.get("save", "save"))(fn)
             out["orig"] = P.canon_detector(det)
             loader = p.get("load", "load")
+            stage = "load"
             back = getattr(Detector, loader)(fn) if loader != "class_load" else type(det).load(fn)
             out["back"] = P.canon_detector(back)
+            out["trees"] = _trees(P, det, back)
         except Exception as ex:  # noqa: BLE001
             out.setdefault("orig", P.canon_detector(det))
-            out["back"] = _exc(ex)
+            out["back"] = _exc(ex, stage)
+            if stage == "load":
+                out["trees"] = _trees(P, det, None)
         finally:
             if os.path.exists(fn):
                 os.unlink(fn)
@@ -155,14 +246,35 @@ def handle(p):
 
         fn = _fname()
         try:
-            det.save(fn)
-            out["file"] = P.canon_detector(det)
-            running = build(p["running"])
             group = p.get("group", "photon_collection")
+            if p.get("save") == "model":
+                # the file is written by the save_detector MODEL at the end of a pipeline that first fills an
+                # (emptied) detector of the same kind; what was saved = what a probe just before save_detector saw
+                saver = build(dict(p["spec"], init={}))
+                P.reset()
+                run_exposure(saver, make_pipeline({p.get("save_group", group): [
+                    {"func": "verif_probes_c18.fill_from_spec", "name": "fill", "arguments": {"init": p["spec"].get("init", {})}},
+                    {"func": "verif_probes_c18.record_canon", "name": "probe_s", "arguments": {"tag": "saved"}},
+                    {"func": "pyxel.models.save_detector", "name": "save", "arguments": {"filename": fn}}]}),
+                    make_readout(times=[1.0]))
+                out["file"] = [t for t in P.TRACE if t["tag"] == "saved"][-1]["canon"]
+                try:
+                    out["file_back"] = P.canon_detector(Detector.load(fn))
+                except Exception as ex:  # noqa: BLE001
+                    out["file_back"] = _exc(ex, "load")
+            else:
+                det.save(fn)
+                out["file"] = P.canon_detector(det)
+            running = build(p["running"])
             models = [{"func": "pyxel.models.load_detector", "name": "load", "arguments": {"filename": fn}},
                       {"func": "verif_probes_c18.record_canon", "name": "probe", "arguments": {"tag": "after"}}]
             if p.get("probe_before"):
                 models.insert(0, {"func": "verif_probes_c18.record_canon", "name": "probe0", "arguments": {"tag": "before"}})
+            if p.get("fill_running"):
+                # the running detector is emptied when the exposure starts: fill it INSIDE the pipeline, so that
+                # load_detector has something to replace
+                models.insert(0, {"func": "verif_probes_c18.fill_from_spec", "name": "fill_r",
+                                  "arguments": {"init": p["running"].get("init", {})}})
             P.reset()
             res = run_exposure(running, make_pipeline({group: models}), make_readout(times=[1.0]))
             seen = [t for t in P.TRACE if t["tag"] == "after"]
